@@ -119,8 +119,22 @@ impl<'a> Rd<'a> {
 
 // ---------------------------------------------------------------- child
 static STARTED_MS: AtomicU64 = AtomicU64::new(0);
+static STARTED_CPU_MS: AtomicU64 = AtomicU64::new(0);
 static CURRENT: AtomicU64 = AtomicU64::new(0);
-pub const INPUT_WALL_LIMIT_MS: u64 = 10_000;
+/// per input: CPU time of the child process (the machine may be heavily shared, so wall time only
+/// serves as a backstop for an input that sleeps or blocks)
+pub const INPUT_CPU_LIMIT_MS: u64 = 10_000;
+pub const INPUT_WALL_LIMIT_MS: u64 = 180_000;
+
+/// CPU time (user + system) of this process in milliseconds, from /proc/self/stat (10 ms ticks)
+pub fn cpu_ms() -> u64 {
+	let Ok(s) = std::fs::read_to_string("/proc/self/stat") else { return 0; };
+	// fields after the parenthesised command name; utime and stime are fields 14 and 15
+	let Some(rest) = s.rfind(')').map(|i| &s[i + 1..]) else { return 0; };
+	let f: Vec<&str> = rest.split_whitespace().collect();
+	let (u, k) = (f.get(11).and_then(|x| x.parse::<u64>().ok()).unwrap_or(0), f.get(12).and_then(|x| x.parse::<u64>().ok()).unwrap_or(0));
+	(u + k) * 10
+}
 
 fn clean(s: &str) -> String { s.chars().map(|c| if c == '\n' || c == '\t' || c == '\r' { ' ' } else { c }).take(300).collect() }
 
@@ -136,9 +150,9 @@ pub fn child_main(batch: &Path, run_one: fn(u8, &[u8], &Path) -> (Res, Option<Re
 	let n = rd.u32() as usize;
 	let t0 = Instant::now();
 	std::thread::spawn(move || loop {
-		std::thread::sleep(std::time::Duration::from_millis(50));
+		std::thread::sleep(std::time::Duration::from_millis(100));
 		let s = STARTED_MS.load(Ordering::SeqCst);
-		if s != 0 && (t0.elapsed().as_millis() as u64).saturating_sub(s) > INPUT_WALL_LIMIT_MS {
+		if s != 0 && ((t0.elapsed().as_millis() as u64).saturating_sub(s) > INPUT_WALL_LIMIT_MS || cpu_ms().saturating_sub(STARTED_CPU_MS.load(Ordering::SeqCst)) > INPUT_CPU_LIMIT_MS) {
 			let out = std::io::stdout();
 			let mut out = out.lock();
 			let _ = writeln!(out, "T {}", CURRENT.load(Ordering::SeqCst));
@@ -160,10 +174,15 @@ pub fn child_main(batch: &Path, run_one: fn(u8, &[u8], &Path) -> (Res, Option<Re
 		let base_mem = CUR.load(Ordering::Relaxed);
 		PEAK.store(base_mem, Ordering::Relaxed); BIG.store(0, Ordering::Relaxed);
 		let t = Instant::now();
+		let cpu0 = cpu_ms();
+		STARTED_CPU_MS.store(cpu0, Ordering::SeqCst);
 		STARTED_MS.store((t0.elapsed().as_millis() as u64).max(1), Ordering::SeqCst);
 		let (res, wres) = run_one(kind, &bytes, &scratch);
 		STARTED_MS.store(0, Ordering::SeqCst);
-		let micros = t.elapsed().as_micros() as u64;
+		// CPU time where it is measurable (10 ms ticks), else wall time; never more than wall time
+		let wall = t.elapsed().as_micros() as u64;
+		let cpu = cpu_ms().saturating_sub(cpu0) * 1000;
+		let micros = if cpu > 0 { cpu.min(wall) } else { wall.min(10_000) };
 		let peak = PEAK.load(Ordering::Relaxed).saturating_sub(base_mem);
 		let big = BIG.load(Ordering::Relaxed);
 		let msg = match (&res, &wres) { (Res::Panic(m), _) => clean(m), (_, Some(Res::Panic(m))) => clean(m), _ => String::new() };
@@ -177,7 +196,7 @@ pub fn child_main(batch: &Path, run_one: fn(u8, &[u8], &Path) -> (Res, Option<Re
 
 // ---------------------------------------------------------------- parent
 pub struct Limits { pub as_kib: u64, pub stack_kib: u64, pub cpu_s: u64 }
-pub const LIMITS: Limits = Limits { as_kib: 1024 * 1024, stack_kib: 8 * 1024, cpu_s: 120 };
+pub const LIMITS: Limits = Limits { as_kib: 1024 * 1024, stack_kib: 8 * 1024, cpu_s: 600 };
 
 fn describe_exit(st: &std::process::ExitStatus, stderr: &str) -> (bool, String) {
 	// (is_timeout, text)
